@@ -149,6 +149,11 @@ class Ctx:
                     s = s.replace(k, str(v))
                 open(p, "w").write(s)
         workers = workers or default_workers()
+        # a timeout is sized for an idle 16-core machine: stretch it when the machine is shared
+        try:
+            timeout = int(timeout * max(1.0, min(6.0, os.getloadavg()[0] / NCPU)) * max(1.0, 16.0 / max(1, NCPU)))
+        except OSError:
+            pass
         args = ["java", "-XX:+UseParallelGC", "-Xss64m"]
         args.append("-Xmx%s" % (heap or os.environ.get("VERIF_TLC_HEAP", "4g")))
         if dfs:
